@@ -144,3 +144,6 @@ func ghost_rvStr(v reflect.Value) string {
 	}
 	return ""
 }
+
+func ghost_rvCanAddr(v reflect.Value) bool { return v.CanAddr() }
+func ghost_rvCanSet(v reflect.Value) bool  { return v.CanSet() }
